@@ -339,6 +339,9 @@ pub struct IQLEngine {
     /// Supports arbitrary arity tuples with mixed types (int, float, string, vector)
     /// Use `input_tuples()` and `input_tuples_mut()` for access.
     input_tuples: HashMap<String, Vec<Tuple>>,
+    /// Relations that held magic-set seed facts during the current evaluation, with what
+    /// they held before (restored when the evaluation ends)
+    magic_seed_undo: Vec<(String, Option<Vec<Tuple>>)>,
 
     /// Parsed program (after parsing)
     program: Option<Program>,
@@ -398,6 +401,7 @@ impl IQLEngine {
     pub fn new() -> Self {
         IQLEngine {
             input_tuples: HashMap::new(),
+            magic_seed_undo: Vec::new(),
             program: None,
             ir_nodes: Vec::new(),
             catalog: Catalog::new(),
@@ -419,6 +423,7 @@ impl IQLEngine {
     pub fn with_config(config: OptimizationConfig) -> Self {
         IQLEngine {
             input_tuples: HashMap::new(),
+            magic_seed_undo: Vec::new(),
             program: None,
             ir_nodes: Vec::new(),
             catalog: Catalog::new(),
@@ -762,6 +767,10 @@ impl IQLEngine {
 
             // Inject magic seed facts into input_tuples
             for (magic_rel, seed_tuples) in magic_seeds {
+                self.magic_seed_undo.push((
+                    magic_rel.clone(),
+                    self.input_tuples.get(&magic_rel).cloned(),
+                ));
                 self.input_tuples
                     .entry(magic_rel)
                     .or_default()
@@ -1537,6 +1546,33 @@ impl IQLEngine {
     /// relation results computed during evaluation. This is used by the provenance
     /// system to avoid expensive re-derivation during backward chaining.
     pub fn execute_tuples_profiled(
+        &mut self,
+        source: &str,
+    ) -> Result<
+        (
+            Vec<Tuple>,
+            HashMap<String, Vec<Tuple>>,
+            Option<execution::TimingBreakdown>,
+        ),
+        String,
+    > {
+        let result = self.execute_tuples_profiled_inner(source);
+        // Magic-set seeds are scratch facts of this one evaluation, not stored data:
+        // take them out again, so a query leaves the engine's facts as it found them.
+        for (relation, before) in std::mem::take(&mut self.magic_seed_undo).into_iter().rev() {
+            match before {
+                Some(tuples) => {
+                    self.input_tuples.insert(relation, tuples);
+                }
+                None => {
+                    self.input_tuples.remove(&relation);
+                }
+            }
+        }
+        result
+    }
+
+    fn execute_tuples_profiled_inner(
         &mut self,
         source: &str,
     ) -> Result<
